@@ -17,5 +17,5 @@ def run(ctx):
         "CircularRecord before the entity is built; find_resistance returns only values of the antibiotics table or raises."
     )
     r.not_decided = ["fs.filterdir glob semantics", "GenBank parsing"]
-    registry_rules(ctx, "C20")
-    registry_data_lint(ctx, "C20.data")
+    ctx.guard(registry_rules, ctx, "C20")
+    ctx.guard(registry_data_lint, ctx, "C20.data")
